@@ -993,6 +993,15 @@ def check_load(ctx, case, built, lay, loader, rec, mode, datum, labels, recipe_n
         got = classify(e)
         foreign = [g for g in got if g[1].startswith("foreign:")]
         if foreign or not isinstance(e, le.LoadError):
+            container_keys = {k for k, ch in lay.tree[1].items() if ch[0] == "dict"} if lay.tree[0] == "dict" else set()
+            if (isinstance(e, TypeError) and lay.extra_in[0] == "kwargs" and not ref_errors
+                    and container_keys & set(lay.by_name) and "multiple values" in str(e)):
+                # same root cause as the container skeleton: the key of a flattened container (a KNOWN key) is
+                # passed as **kwargs and collides with the parameter of the same name
+                viol("load_extras_mismatch", ("container_skeleton", "kwargs_parameter_collision"),
+                     f"datum={datum!r}: {describe(e)}\nno unknown key equals a parameter name; unknown data is "
+                     f"{ref_extras!r}")
+                return
             viol("load_non_loaderror", (type(e).__name__, exc_site(e)), f"datum={datum!r}: {describe(e)}")
             return
         if not ref_errors:
